@@ -8,6 +8,7 @@ import DisjointImpls.RevSub
 import DisjointImpls.Key
 import DisjointImpls.Bounds
 import DisjointImpls.Validate
+import DisjointImpls.Canon
 import DisjointImpls.Lemmas.MatchSound
 import DisjointImpls.Lemmas.RevSubLemmas
 open DI
@@ -67,10 +68,30 @@ def handle (cmd : String) (args : List Sx) : Sx :=
       .list [.sym "tb", b3ToSx (tbEq p q), b3ToSx (tbEq q p),
         boolSx (decide (keyOf p = keyOf q)), boolSx (decide (hashFeed p = hashFeed q)),
         (tbTokens p).toSx, (tbTokens q).toSx]
+  | "canon", [item] =>
+      let s := indexImpl item
+      let pr := fun (m : List (String × Nat)) => Sx.list (m.map (fun (x, i) => .list [.str x, .sym (toString i)]))
+      .list [.sym "canon", (canon item).toSx, pr s.ixLt, pr s.ixTy, pr s.ixCo, boolSx (canon (canon item) == canon item)]
   | "bounds", [item] =>
       let g := (implGenerics item).getD (.node "?" [] [])
       .list ((findBounds g).map (fun b => .list [b.bounded.toSx, b.tr.toSx,
         .list (b.binds.map (fun (n, t) => .list [.str n, t.toSx])), boolSx b.maybe]))
+  | "rows", [rows] =>
+      -- does some member's row generalise another's (code: `is_overlapping`, lib.rs:342-368)? list of offending ordered pairs
+      let rs := match rows with
+        | .node "List" [] xs => xs.map decodeRow
+        | _ => []
+      let idx := List.range rs.length
+      let bad := idx.flatMap (fun i => idx.filterMap (fun j =>
+        if i == j then none else
+        match rs[i]?, rs[j]? with
+        | some a, some b =>
+            if a.length == b.length && (List.zip a b).all (fun p => match p.1, p.2 with
+              | some e1, some e2 => (match sup e1 e2 with | .yes _ _ => true | _ => false)
+              | none, _ => true
+              | _, _ => false) then some (Sx.list [.sym (toString i), .sym (toString j)]) else none
+        | _, _ => none))
+      .list [.sym "rows", .sym (toString rs.length), .list bad]
   | "family", gid :: keys :: rows :: mainImpl :: members =>
       let F := mkFamily gid keys rows mainImpl members
       .list [.sym "family", boolSx (keysOverHeaderB F), .sym (toString F.keys.length),
